@@ -47,6 +47,41 @@ impl Escaper {
         }
     }
 
+    /// Returns provided byte sequence in the form of an escaped expression, no
+    /// matter whether it contains non-printable characters (i.e. backslashes are
+    /// always doubled)
+    pub(crate) fn escaped_always(&self, raw: &[u8]) -> String {
+        match (self, std::str::from_utf8(raw)) {
+            (Escaper::Unicode, Ok(text)) => text
+                .chars()
+                .map(|ch| {
+                    if ch == '\\' {
+                        "\\\\".to_string()
+                    } else {
+                        escaped_printable_unicode(ch.to_string().as_bytes())
+                    }
+                })
+                .collect(),
+            _ => raw.iter().map(byte_to_ascii).collect(),
+        }
+    }
+
+    /// Renders a (non-empty) line as escaped expectation with the first character given
+    /// as escape sequence, e.g. `\x24 foo (escaped)` for `$ foo`: an output line that would
+    /// be read as command (`$ `) or as continuation of a command (`> `) when written
+    /// into a test document as it is
+    pub(crate) fn escaped_with_leading_sequence(&self, raw: &[u8]) -> String {
+        let line = raw.trim_newlines();
+        match line.split_first() {
+            Some((first, rest)) => mark_escaped(&format!(
+                "\\x{:02x}{}",
+                first,
+                self.escaped_always(rest)
+            )),
+            None => mark_escaped(""),
+        }
+    }
+
     pub fn has_unprintable(&self, raw: &[u8]) -> bool {
         match self {
             Escaper::Ascii => has_unprintable_ascii(raw),
